@@ -320,9 +320,21 @@ class Validator:
         return cls
 
     def canonical(self, exc):
+        if not hasattr(self, "foreign"):      # pyserial / libusb1 classes live in submodules (serial.serialutil, usb1._libusb1)
+            self.foreign = {}
+            for k in self.tree:
+                if k.startswith(("serial.", "usb1.")):
+                    try:
+                        self.foreign[self.real_class(k)] = k
+                    except Exception:      # noqa: BLE001  (library not installed: the name-based lookup below applies)
+                        pass
         for c in type(exc).__mro__:
+            if c in self.foreign:
+                return self.foreign[c]
             n = c.__qualname__ if c.__module__ == "builtins" else c.__module__ + "." + c.__qualname__
-            n = {"ndef.record.DecodeError": "ndef.DecodeError", "ndef.record.EncodeError": "ndef.EncodeError"}.get(n, n)
+            n = {"ndef.record.DecodeError": "ndef.DecodeError", "ndef.record.EncodeError": "ndef.EncodeError",
+                 "serial.serialutil.SerialException": "serial.SerialException",
+                 "serial.serialutil.SerialTimeoutException": "serial.SerialTimeoutException"}.get(n, n)
             if n in self.tree:
                 return n
         return None
@@ -714,6 +726,25 @@ MUTATIONS = [
     ("disc-benign-refactor", "harmless edit (log line in listen): nothing may break", None,
      sub("clf/__init__.py", "            self.target = None  # forget captured target\n            self.device.mute()  # deactivate the rf field\n\n            info = \"listen %.3f seconds for %s\"",
          "            self.target = None  # forget captured target\n            log.debug(\"mute\")\n            self.device.mute()  # deactivate the rf field\n\n            info = \"listen %.3f seconds for %s\"")),
+    ("tr-usb-read-narrow", "narrow the catch-all handler of USB.read (USBError -> USBErrorIO)", "transport_read_escapes",
+     sub("clf/transport.py", "            except libusb.USBError as error:", "            except libusb.USBErrorIO as error:", after="def read(self, timeout=0)")),
+    ("tr-usb-write-call-out-of-try", "move a call out of the try (USB.write: first bulkWrite)", "transport_write_escapes",
+     sub("clf/transport.py", "            try:\n                ep_addr = self.usb_out.getAddress()\n                self.usb_dev.bulkWrite(ep_addr, bytes(frame), timeout)\n",
+         "            ep_addr = self.usb_out.getAddress()\n            self.usb_dev.bulkWrite(ep_addr, bytes(frame), timeout)\n            try:\n")),
+    ("tr-tty-read-wrong-class", "raise another class (TTY.read: silent line)", "transport_read_escapes",
+     sub("clf/transport.py", "                raise IOError(errno.ETIMEDOUT, os.strerror(errno.ETIMEDOUT))", "                raise RuntimeError(os.strerror(errno.ETIMEDOUT))",
+         after="def read(self, timeout)")),
+    ("tr-usb-read-zero-wrong-class", "raise another class (USB.read: zero-length bulk read)", "transport_read_escapes",
+     sub("clf/transport.py", "                log.error(\"bulk read returned zero data\")\n                raise IOError(errno.EIO, os.strerror(errno.EIO))",
+         "                log.error(\"bulk read returned zero data\")\n                raise ValueError(os.strerror(errno.EIO))")),
+    ("tr-usb-close-raises", "call that can raise added (USB.close releases the interface first)", "transport_close_escapes",
+     sub("clf/transport.py", "        if self.usb_dev:\n            self.usb_dev.close()", "        if self.usb_dev:\n            self.usb_dev.releaseInterface(0)\n            self.usb_dev.close()")),
+    ("tr-usb-open-repaired", "catch-all handler added to USB.open (claimInterface): the finding statement goes stale only when ALL leaks are closed - nothing may break", None,
+     sub("clf/transport.py", "        except libusb.USBErrorNoDevice:\n            raise IOError(errno.ENODEV, os.strerror(errno.ENODEV))\n\n    def close(self):",
+         "        except libusb.USBErrorNoDevice:\n            raise IOError(errno.ENODEV, os.strerror(errno.ENODEV))\n        except libusb.USBError:\n            raise IOError(errno.EIO, os.strerror(errno.EIO))\n\n    def close(self):")),
+    ("tr-benign-refactor", "harmless edit (log line in USB.write): nothing may break", None,
+     sub("clf/transport.py", "                ep_addr = self.usb_out.getAddress()\n                self.usb_dev.bulkWrite(ep_addr, bytes(frame), timeout)",
+         "                ep_addr = self.usb_out.getAddress()\n                log.debug(\"bulk write\")\n                self.usb_dev.bulkWrite(ep_addr, bytes(frame), timeout)")),
     ("benign-refactor", "harmless edit (log line added, handler body reformatted): nothing may break", None,
      sub("tag/tt2.py", "                error = e\n                reason = error.__class__.__name__", "                error = e\n                log.debug(\"retry\")\n                reason = error.__class__.__name__", after="def transceive")),
 ]
